@@ -699,7 +699,7 @@ fn apply_doc(doc: &Doc, dev: &Dev, v: (u8, u8)) -> Option<Doc> {
 
 pub fn run() {
 	let cx = ctx();
-	cx.note("rule", json!("structure-aware and byte-level deviations of well-formed replays of every framing regime, every single deviation and (thorough) every pair of event-level/header deviations: event delete/duplicate/swap/move/insert (each of the 10 known kinds at every boundary, declared in the table when the version lacks it), frame id / port / follower edits, payload-table edits (sizes, removal, duplication, every value of the length byte, wrong code), every declared raw length 0..actual+8 and 2^31, 2^32-1, splitter fields, metadata markers, every byte offset x {0,0xFF,b^1,b^0x80,b+1} and all 256 values in header/table/first 7 bytes of each event, every truncation, all byte strings of length <=1 (and <=2 with a known first byte; thorough: all) appended after every valid parser state; x {skip_frames} x {compute_hash}; the same inputs through the incremental API driven as in the README; read errors of 5 kinds injected at every read call; metadata nested 1..10^6 deep (subprocess). Oracle: returns Ok or Err - no panic, no abort, no read loop without progress, injected non-Interrupted errors surface as Err. Every case is non-trivial (a deviation from a well-formed replay); distinct = distinct mutated input x options"));
+	cx.note("rule", json!("structure-aware and byte-level deviations of well-formed replays of every framing regime, every single deviation and (thorough) every pair of event-level/header deviations: event delete/duplicate/swap/move/insert (each of the 10 known kinds at every boundary, declared in the table when the version lacks it), frame id / port / follower edits, payload-table edits (sizes, removal, duplication, every value of the length byte, wrong code), every declared raw length 0..actual+8 and 2^31, 2^32-1, splitter fields, metadata markers, every byte offset x {0,0xFF,b^1,b^0x80,b+1} and all 256 values in header/table/first 7 bytes of each event, every truncation, all byte strings of length <=1 (and <=2 with a known first byte; thorough: all) appended after every valid parser state; x {skip_frames} x {compute_hash}; the same inputs through the incremental API driven as in the README; (thorough also: pairs structural x table/splitter edits, pairs of byte edits in header+table, all 3-byte suffixes with a known first byte); read errors of 5 kinds injected at every read call; metadata nested 1..10^6 deep (subprocess). Oracle: returns Ok or Err - no panic, no abort, no read loop without progress, injected non-Interrupted errors surface as Err. Every case is non-trivial (a deviation from a well-formed replay); distinct = distinct mutated input x options"));
 	cx.note("exhaustive", json!(true));
 	cx.note("assumptions", json!(["'all byte strings' is not enumerable: decided is the <=1 (thorough: <=2) deviation neighbourhood of well-formed replays plus all short suffixes after every parser state", "a hang is a case without result after 60 s; a read loop without progress is detected by the environment reader's call bound (8*len+64 calls)"]));
 	let all_opts = [(false, false), (true, false), (false, true), (true, true)];
@@ -740,6 +740,79 @@ pub fn run() {
 			let doc2 = doc.clone();
 			par_each(it, move |(d1, d2), local| {
 				run_dev(&doc2, v, &[d1, d2], name, local, &all_opts[..1], true);
+			});
+		}
+	}
+	if !cx.quick() {
+		// (structural, table/splitter/metadata) pairs
+		for (abs, name) in bases(false) {
+			let v = abs.v2();
+			let doc = Arc::new(record(&abs).doc);
+			let firsts = structural_devs(&doc, false);
+			let docref = doc.clone();
+			let it = firsts.into_iter().flat_map(move |d1| {
+				let seconds: Vec<Dev> = match apply_doc(&docref, &d1, v) {
+					Some(nd) => other_devs(&nd, false).into_iter().filter(|d| matches!(d, Dev::TableSize(..) | Dev::TableRemove(..) | Dev::TableDup(..) | Dev::SplitLive(..) | Dev::SplitFinal(..) | Dev::SplitDeclared(..) | Dev::SplitUnfinished | Dev::SplitTwice) || matches!(d, Dev::SplitCode(_, c) if [0x10u8, 0x35, 0x36, 0x37, 0x39, 0x3D, 0x00, 0xFF].contains(c))).collect(),
+					None => vec![],
+				};
+				seconds.into_iter().map(move |d2| (d1.clone(), d2))
+			});
+			let doc2 = doc.clone();
+			par_each(it, move |(d1, d2), local| {
+				run_dev(&doc2, v, &[d1, d2], name, local, &all_opts[..2], false);
+			});
+		}
+		// pairs of byte edits in the file header + payload table
+		for (abs, name) in bases(false) {
+			let doc = record(&abs).doc;
+			let bytes = doc.assemble();
+			let table_end = 15 + 2 + 3 * doc.table.len();
+			let mut jobs = vec![];
+			for o1 in 0..table_end {
+				for o2 in o1 + 1..table_end {
+					jobs.push((o1, o2));
+				}
+			}
+			let b = Arc::new(bytes);
+			par_each(jobs.into_iter(), move |(o1, o2), local| {
+				let vals = |x: u8| [0u8, 0xFF, x ^ 1, x ^ 0x80, x.wrapping_add(1)];
+				for v1 in vals(b[o1]) {
+					for v2 in vals(b[o2]) {
+						let mut m = (*b).clone();
+						m[o1] = v1;
+						m[o2] = v2;
+						let m = Arc::new(m);
+						for (skip, hash) in [(false, false), (true, true)] {
+							let p = P { skip, hash, class: "byte-pair", ..Default::default() };
+							eval_case("robust", o_robust, &m, &p, || format!("{} bytes {:#x}={:#04x} {:#x}={:#04x}", name, o1, v1, o2, v2), local);
+						}
+					}
+				}
+			});
+		}
+		// all 3-byte suffixes that start with a known event code / marker, after every parser state
+		for (abs, name) in bases(true) {
+			let doc = record(&abs).doc;
+			let full = Arc::new(doc.assemble());
+			let mut states: Vec<usize> = vec![15];
+			states.extend(doc.boundaries());
+			let mut jobs = vec![];
+			for at in states {
+				for a in [0x10u8, 0x35, 0x36, 0x37, 0x38, 0x39, 0x3A, 0x3B, 0x3C, 0x3D, 0x55, 0x7b, 0x7d] {
+					for b in 0..=255u8 {
+						jobs.push((at, a, b));
+					}
+				}
+			}
+			let f2 = full.clone();
+			par_each(jobs.into_iter(), move |(at, a, b), local| {
+				for c in 0..=255u8 {
+					let mut m = f2[..at].to_vec();
+					m.extend_from_slice(&[a, b, c]);
+					let m = Arc::new(m);
+					let p = P { class: "suffix3", ..Default::default() };
+					eval_case("robust", o_robust, &m, &p, || format!("{} prefix {} + [{:#04x} {:#04x} {:#04x}]", name, at, a, b, c), local);
+				}
 			});
 		}
 	}
